@@ -4,8 +4,30 @@ From Coq Require Import ZifyBool ZifyNat ZifyN Lia List.
 Import ListNotations.
 Open Scope Z_scope.
 
-Definition M : Z := 24.
-Definition M0 : Z := 12.
+Definition M : Z := 24.       (* the uniform bound: every per-state margin below is at most M *)
+Definition M0 : Z := 8.       (* the scanning loops *)
+(* per-state look-ahead: how far before the end of the common prefix the cursor has to be AFTER the state function
+   for the function to behave identically on both inputs.  4 = one rune of look-ahead of [next] (the model decodes
+   up to four bytes); 8 = a rune read and a rune backed up or peeked; 12 = the keywords of soydoc, css and literal
+   blocks; 24 = lexHeaderParam (keyword, type, white space backed up over).  Found by re-running the proofs. *)
+Definition m_text : Z := 8.
+Definition m_ldelim : Z := 4.
+Definition m_rdelim : Z := 4.
+Definition m_rdelim_end : Z := 4.
+Definition m_begin_tag : Z := 4.
+Definition m_inside : Z := 8.
+Definition m_soydoc : Z := 16.
+Definition m_linec : Z := 8.
+Definition m_blockc : Z := 8.
+Definition m_string : Z := 8.
+Definition m_ident : Z := 8.
+Definition m_header : Z := 24.
+Definition m_css : Z := 12.
+Definition m_literal : Z := 12.
+Definition m_number : Z := 8.
+Definition m_run : Z := 8.
+Definition m_close : Z := 4.
+Definition m_sdparam : Z := 12.
 Definition pmono (n : Z) (l : lx) (p : lstate * lx) : Prop := Z.min (l_pos l) n <= l_pos (snd p) + 4 /\ 0 <= l_pos l.
 Definition lmono (l r : lx) : Prop := l_pos l <= l_pos r /\ 0 <= l_width r <= 4 /\ l_start r = l_start l /\ 0 <= l_pos l.
 
@@ -46,7 +68,7 @@ Ltac facts :=
 
 Ltac side :=
   repeat match goal with |- context [if ?c then _ else _] => destruct c end;
-  unfold eof, loop_fuel, lmono, pmono, next_fact, same_pos, emit_fact, accept_fact, met_fact, errorf_fact, M, M0 in *;
+  unfold eof, loop_fuel, lmono, pmono, next_fact, same_pos, emit_fact, accept_fact, met_fact, errorf_fact, M, M0, m_text, m_ldelim, m_rdelim, m_rdelim_end, m_begin_tag, m_inside, m_soydoc, m_linec, m_blockc, m_string, m_ident, m_header, m_css, m_literal, m_number, m_run, m_close, m_sdparam in *;
   cbn [l_pos l_start l_width set_pos set_start set_dd backup ignore tick fst snd] in *; lia.
 
 (* replay the recorded path on the second input *)
@@ -316,20 +338,20 @@ Ltac replay2 :=
         rewrite (header_type_loop_det _ lns l _ ltac:(side2) E ltac:(unfold hpos; side2) f2 ltac:(unfold hpos; side2)); cbn [bind]
     end ].
 
-Lemma accept_run_det v l res : accept_run inp1 n1 v l = Ok res -> l_pos (snd res) + M <= h ->
+Lemma accept_run_det v l res : accept_run inp1 n1 v l = Ok res -> l_pos (snd res)+ m_run <= h ->
   accept_run inp2 n2 v l = Ok res.
 Proof using All. intros H Hb. unfold accept_run in *. start H. replay2. Qed.
 
-Lemma skip_space_det l res : skip_space inp1 n1 l = Ok res -> l_pos res + M <= h ->
+Lemma skip_space_det l res : skip_space inp1 n1 l = Ok res -> l_pos res+ m_run <= h ->
   skip_space inp2 n2 l = Ok res.
 Proof using All. intros H Hb. unfold skip_space in *. start H. replay2. Qed.
 
-Lemma lex_left_delim_det l res : lex_left_delim inp1 n1 base l = Ok res -> l_pos (snd res) + M <= h ->
+Lemma lex_left_delim_det l res : lex_left_delim inp1 n1 base l = Ok res -> l_pos (snd res)+ m_ldelim <= h ->
   lex_left_delim inp2 n2 base l = Ok res.
 Proof using All. intros H Hb. unfold lex_left_delim in *. start H; replay2. Qed.
 
 Lemma double_close_det l res : double_close inp1 n1 base l = Ok res ->
-  (match res with inl e => l_pos (snd e) | inr l' => l_pos l' end) + M <= h ->
+  (match res with inl e => l_pos (snd e) | inr l' => l_pos l' end)+ m_close <= h ->
   double_close inp2 n2 base l = Ok res.
 Proof using All. intros H Hb. unfold double_close in *. start H; replay2. Qed.
 
